@@ -211,7 +211,7 @@ Qed.
 Lemma child_entry_raises_notfound w n e : child_entry w n = Raise e -> e = FileNotFound.
 Proof.
   unfold child_entry. destruct (negb (is_secure (child_sel w n))); [congruence|].
-  destruct (w_stat w n) as [[| |]|]; congruence.
+  destruct (w_stat w n) as [[| | |]|]; congruence.
 Qed.
 
 Lemma dir_child_raises_notfound w n e : dir_child w n = Raise e -> e = FileNotFound.
